@@ -25,6 +25,7 @@ from typing import Dict, List, Optional, Tuple
 from engine.src import FunctionInfo, own_nodes, own_nodes_incl_lambda, src_of, AnalysisError
 from engine.affine import lin, Lin, LinErr
 from engine.util import is_self_attr
+from .sem import ctext, paths, split_ifexp, consistent, inline_helpers, complement_norm, truth_of, RAISE
 
 RULES = {
     "C20.a": "plain framing: affine proof of slice lengths, lag/target offsets, bounds and alignment of exogenous rows and weights",
@@ -48,236 +49,301 @@ BASE_ENV = {
 }
 
 
-def _blocks(fi: FunctionInfo):
-    """(plain block, same_rows block) for use_all_past=False"""
-    top = [s for s in fi.node.body if isinstance(s, ast.If) and src_of(s.test) == "same_rows"]
-    if len(top) != 1:
-        raise AnalysisError("build_ts_X_y: `if same_rows:` not found")
-
-    def pick(stmts):
-        inner = [s for s in stmts if isinstance(s, ast.If) and src_of(s.test) == "model.use_all_past"]
-        if len(inner) != 1 or not inner[0].orelse:
-            raise AnalysisError("build_ts_X_y: `if model.use_all_past:` not found")
-        return inner[0].orelse
-
-    return pick(top[0].orelse), pick(top[0].body)
-
-
-def _env(block: List[ast.stmt]) -> Dict[str, Lin]:
-    env = dict(BASE_ENV)
-    for s in block:
-        if isinstance(s, ast.Assign) and len(s.targets) == 1 and isinstance(s.targets[0], ast.Name):
-            nm = s.targets[0].id
-            if nm == "ncol":
-                env["ncol"] = NCOL
-                continue
-            try:
-                env[nm] = lin(s.value, env)
-            except LinErr:
-                pass
-    return env
+def _t(x) -> str:
+    return ast.unparse(x) if isinstance(x, ast.AST) else str(x)
 
 
 class Piece:
-    def __init__(self, stmt, lhs_rows, lhs_col, rhs_base, lo, hi, loopvar=None, loop_lo=None, loop_hi=None, env=None):
+    def __init__(self, stmt, lhs_rows, lhs_col, rhs_base, lo, hi, loop=None, loop_lo=None, loop_hi=None):
         self.stmt, self.lhs_rows, self.lhs_col, self.rhs_base = stmt, lhs_rows, lhs_col, rhs_base
-        self.lo, self.hi, self.loopvar, self.loop_lo, self.loop_hi, self.env = lo, hi, loopvar, loop_lo, loop_hi, env
+        self.lo, self.hi, self.loop, self.loop_lo, self.loop_hi = lo, hi, loop, loop_lo, loop_hi
 
 
-def _pieces(block, env) -> Dict[str, Piece]:
-    out: Dict[str, Piece] = {}
+def _outputs(fi: FunctionInfo) -> Tuple[str, str, str]:
+    names = set()
+    for r in own_nodes(fi.node):
+        if isinstance(r, ast.Return) and isinstance(r.value, ast.Tuple) and len(r.value.elts) == 3 and all(isinstance(e, ast.Name) for e in r.value.elts):
+            names.add(tuple(e.id for e in r.value.elts))
+    if len(names) != 1:
+        raise AnalysisError("build_ts_X_y: the returned triple (features, targets, weights) was not found")
+    return next(iter(names))
 
-    def rhs_slice(v, e):
-        if isinstance(v, ast.Subscript) and isinstance(v.slice, ast.Slice):
-            lo = lin(v.slice.lower, e) if v.slice.lower is not None else Lin(0)
-            hi = lin(v.slice.upper, e) if v.slice.upper is not None else N
-            return src_of(v.value), lo, hi
+
+def _frame(repo, fi: FunctionInfo, same_rows: bool, x_given: bool):
+    """the framing for use_all_past=False: {'lags','targets','exog','weights'} pieces
+    (linear forms), the row count of the allocations, the padding row"""
+    pm, pX, py_, pw, psame = fi.named_params[:5]
+    b = {psame: same_rows, f"{pm}.use_all_past": False, pw: ast.Name(id=f"{pw}__set", ctx=ast.Load())}
+    b[pX] = ast.Name(id=f"{pX}__set", ctx=ast.Load()) if x_given else None
+    ps = [p for p in split_ifexp(paths(fi, b, repo)) if p.ret != RAISE and consistent(p.conds)]
+    if len(ps) != 1:
+        raise AnalysisError(f"build_ts_X_y: {len(ps)} paths for same_rows={same_rows}, use_all_past=False")
+    p = ps[0]
+    oX, oy, ow = _outputs(fi)
+    sym = {f"{py_}.shape[0]": N, f"{pX}__set.shape[0]": N, f"{pm}.past": PAST, f"{pm}.delay1": D1, f"{pm}.delay2": D2, f"{pX}__set.shape[1]": NCOL}
+    loops = {l.lineno: l for l in own_nodes(fi.node) if isinstance(l, ast.For) and isinstance(l.target, ast.Name)}
+    for ln, l in loops.items():
+        sym[f"{l.target.id}__L{ln}"] = Lin.sym("i")
+
+    def L(e):
+        return lin(e, sym)
+
+    pieces: Dict[str, Piece] = {}
+    for key, val in p.named_stores.items():
+        try:
+            k = ast.parse(key, mode="eval").body
+        except SyntaxError:
+            continue
+        if not (isinstance(k, ast.Subscript) and isinstance(k.value, ast.Name) and k.value.id in (oX, oy) and isinstance(k.slice, ast.Tuple) and len(k.slice.elts) == 2):
+            continue
+        if not (isinstance(val, ast.Subscript) and isinstance(val.slice, ast.Slice)):
+            continue
+        base = _t(val.value)
+        lo = L(val.slice.lower) if val.slice.lower is not None else Lin(0)
+        hi = L(val.slice.upper) if val.slice.upper is not None else N
+        rows, col = k.slice.elts
+        loop = None
+        for n_ in ast.walk(k):
+            if isinstance(n_, ast.Name) and "__L" in n_.id:
+                loop = loops.get(int(n_.id.rsplit("__L", 1)[1]))
+        for n_ in ast.walk(val):
+            if isinstance(n_, ast.Name) and "__L" in n_.id:
+                loop = loop or loops.get(int(n_.id.rsplit("__L", 1)[1]))
+        llo = lhi = None
+        if loop is not None:
+            a = loop.iter.args if isinstance(loop.iter, ast.Call) and _t(loop.iter.func) == "range" else []
+            if a:
+                llo = L(PathSub(p.env, a[0])) if len(a) >= 2 else Lin(0)
+                lhi = L(PathSub(p.env, a[-1] if len(a) <= 2 else a[1]))
+        role = "targets" if k.value.id == oy else ("lags" if base == py_ else ("exog" if base == f"{pX}__set" else None))
+        if role:
+            pieces[role] = Piece(p.origin.get(key), rows, col, base, lo, hi, loop, llo, lhi)
+    w = p.ret.elts[2] if isinstance(p.ret, ast.Tuple) and len(p.ret.elts) == 3 else None
+    wst = p.origin.get(ow)
+    if isinstance(w, ast.Subscript) and isinstance(w.slice, ast.Slice):
+        pieces["weights"] = Piece(wst, None, None, _t(w.value), L(w.slice.lower) if w.slice.lower is not None else Lin(0), L(w.slice.upper) if w.slice.upper is not None else N)
+    elif w is not None:
+        pieces["weights"] = Piece(wst, None, None, _t(w), None, None)
+    alloc = {}
+    for nm in (oX, oy):
+        v = p.env.get(nm)
+        alloc[nm] = v
+    return p, pieces, alloc, L, (oX, oy, ow), (pm, pX, py_, pw)
+
+
+def PathSub(env, e):
+    from engine.patheval import _Sub
+
+    return complement_norm(_Sub(env).visit(clone_ast(e)))
+
+
+def _rows_of_alloc(v, L):
+    """(row count as a linear form, constructor, fill) of numpy.empty((rows, ..)) / numpy.full((rows, ..), fill)"""
+    if isinstance(v, ast.Call) and _t(v.func) in ("numpy.empty", "numpy.zeros", "numpy.full") and v.args and isinstance(v.args[0], ast.Tuple) and v.args[0].elts:
+        fill = _t(v.args[1]) if _t(v.func) == "numpy.full" and len(v.args) > 1 else None
+        try:
+            return L(v.args[0].elts[0]), _t(v.func), fill
+        except LinErr:
+            return None, _t(v.func), fill
+    return None, None, None
+
+
+def check_a(ck, repo):
+    fi = repo.func(UT, "build_ts_X_y")
+    try:
+        p, P, alloc, L, outs, prm = _frame(repo, fi, False, True)
+        p0, P0, alloc0, L0, _, _ = _frame(repo, fi, False, False)
+    except (AnalysisError, LinErr) as e:
+        ck.unknown("C20.a", fi, "plain framing", f"cannot follow the framing: {e}")
         return None
+    oX, oy, ow = outs
+    want_rows = N - D2 - PAST + Lin(2)
+    nrow, _, _ = _rows_of_alloc(alloc.get(oX), L)
+    nrow_y, _, _ = _rows_of_alloc(alloc.get(oy), L)
+    ck.verdict(nrow is not None and nrow == want_rows and nrow_y == want_rows, "C20.a", fi, f"rows allocated = {nrow!r}", "number of rows n - delay2 - past + 2", f"the tables have {nrow!r} / {nrow_y!r} rows, expected n - d2 - past + 2")
+    nrow = want_rows
+    for role in ("lags", "targets", "exog", "weights"):
+        if role not in P:
+            ck.unknown("C20.a", fi, role, f"store for '{role}' not found in the plain framing")
+            return None
+    I = Lin.sym("i")
+    one = {"d1": Lin(1)}
+    Lg = P["lags"]
+    ck.verdict(Lg.loop_lo == Lin(0) and Lg.loop_hi == PAST, "C20.a", fi, f"lags: for i in range({Lg.loop_lo!r}, {Lg.loop_hi!r})", "one lag column per i in range(past), read from the series itself", "lag columns are not built for i in range(past) from y")
+    ck.verdict(_sub(Lg.hi - Lg.lo - nrow, **one).is_zero(), "C20.a", fi, Lg.stmt if Lg.stmt is not None else "lag slice", f"lag slice has nrow elements (length {_sub(Lg.hi - Lg.lo, **one)!r})", f"lag slice y[{Lg.lo!r}:{Lg.hi!r}] has length {_sub(Lg.hi - Lg.lo, **one)!r}, not nrow = {nrow!r}")
+    ck.verdict(Lg.lo == I, "C20.a", fi, f"lag column i starts at y[{Lg.lo!r}]", "row r, lag column i reads y[r + i]: `past` consecutive values, newest y[r + past - 1]", f"lag column i starts at {Lg.lo!r} instead of i: lags are not the `past` consecutive values ending at r + past - 1")
+    try:
+        col = L(Lg.lhs_col)
+        ck.verdict(col == I + NCOL, "C20.a", fi, f"lag column index {col!r}", "lag i is stored in column ncol + i (after the exogenous columns)", f"lag i is stored in column {col!r}")
+        col0 = L0(P0["lags"].lhs_col) if "lags" in P0 else None
+        ck.verdict(col0 == I, "C20.a", fi, f"lag column index without exogenous features {col0!r}", "without exogenous features lag i is column i", f"without exogenous features lag i is stored in column {col0!r}")
+    except LinErr:
+        ck.unknown("C20.a", fi, "lag column index", "cannot read the lag column index")
+    T = P["targets"]
+    ck.verdict(T.rhs_base == prm[2] and T.loop_lo == D1 and T.loop_hi == D2, "C20.a", fi, f"targets: for i in range({T.loop_lo!r}, {T.loop_hi!r})", "one target column per step in [delay1, delay2)", "target columns are not built for i in range(delay1, delay2) from y")
+    ck.verdict((T.hi - T.lo - nrow).is_zero(), "C20.a", fi, T.stmt if T.stmt is not None else "target slice", "target slice has nrow elements", f"target slice has length {(T.hi - T.lo)!r}, not nrow")
+    newest = PAST - Lin(1)
+    first_t = _sub(T.lo, i=D1)
+    ck.verdict((first_t - newest - D1).is_zero(), "C20.a", fi, f"first target offset {first_t!r}", "the first target lies exactly delay1 steps after the newest lag (r + past - 1 + delay1)", f"first target is y[r + {first_t!r}] while the newest lag is y[r + {newest!r}]: the gap is {(first_t - newest)!r}, not delay1 — targets overlap the lag features or skip a step")
+    ck.verdict(T.lo.t.get("i", 0) == 1, "C20.a", fi, f"target offset {T.lo!r}", "consecutive targets (offset grows by one per column)", "targets are not consecutive values")
+    last = _sub(T.hi, i=D2 - Lin(1))
+    ck.verdict((last - N).is_zero(), "C20.a", fi, f"largest index read: {last!r} - 1", "the last target of the last row is y[n - 1] (no read past the series, none dropped)", f"the last target slice ends at {last!r}, not n")
+    try:
+        colt = L(T.lhs_col)
+        ck.verdict(colt == I - D1, "C20.a", fi, f"target column index {colt!r}", "step i is stored in column i - delay1", f"target for step i is stored in column {colt!r}")
+    except LinErr:
+        ck.unknown("C20.a", fi, "target column index", "cannot read the target column index")
+    gap = first_t - newest
+    init = repo.cls(BS, "BaseTimeSeries").methods["__init__"]
+    asserts = [ctext(src_of(a.test)) for a in own_nodes(init.node) if isinstance(a, ast.Assert)]
+    ck.verdict(gap == D1 and ctext("self.delay1 >= 1") in asserts and ctext("self.delay2 > self.delay1") in asserts, "C20.a", fi, f"min target - max lag = {gap!r}; asserts {asserts[:2]}", "every lag is strictly older than every target (delay1 >= 1 is asserted by the constructor)", "lags are not provably older than targets (gap is not delay1, or delay1 >= 1 / delay2 > delay1 is no longer asserted)")
+    E = P["exog"]
+    ck.verdict(E.lo == newest and (E.hi - E.lo - nrow).is_zero(), "C20.a", fi, E.stmt if E.stmt is not None else "exogenous rows", "exogenous rows start at past - 1 (the newest lag) and there are nrow of them", f"exogenous rows are X[{E.lo!r}:{E.hi!r}]: not aligned with the newest lag (past - 1) or not nrow rows")
+    W = P["weights"]
+    ok = W.lo is not None and W.rhs_base == f"{prm[3]}__set" and W.lo == newest and (W.hi - W.lo - nrow).is_zero()
+    ck.verdict(ok, "C20.a", fi, W.stmt if W.stmt is not None else "weights", "weights start at past - 1 (the newest lag), nrow of them", f"weights are {W.rhs_base}[{W.lo!r}:{W.hi!r}]: not aligned with the newest lag")
+    # weights absent stay absent
+    pm, pX, py_, pw = prm
+    pn = [q for q in split_ifexp(paths(fi, {fi.named_params[4]: False, f"{pm}.use_all_past": False, pw: None}, repo)) if q.ret != RAISE and consistent(q.conds)]
+    ck.verdict(bool(pn) and all(isinstance(q.ret, ast.Tuple) and _t(q.ret.elts[2]) == "None" for q in pn), "C20.a", fi, "weights=None -> None", "no weights in, no weights out", "weights=None does not stay None")
+    return P, nrow
 
-    def lhs_parts(t):
-        if isinstance(t, ast.Subscript) and isinstance(t.slice, ast.Tuple) and len(t.slice.elts) == 2:
-            return src_of(t.value), t.slice.elts[0], t.slice.elts[1]
-        return None
 
-    for s in block:
-        if isinstance(s, ast.For) and isinstance(s.target, ast.Name) and isinstance(s.iter, ast.Call) and src_of(s.iter.func) == "range":
-            iv = s.target.id
-            a = s.iter.args
-            llo = lin(a[0], env) if len(a) == 2 else Lin(0)
-            lhi = lin(a[-1], env)
-            e = dict(env)
-            e[iv] = Lin.sym("i")
-            for b in s.body:
-                if isinstance(b, ast.Assign) and len(b.targets) == 1 and isinstance(b.targets[0], ast.Name):
-                    try:
-                        e[b.targets[0].id] = lin(b.value, e)
-                    except LinErr:
-                        pass
-                elif isinstance(b, ast.Assign) and len(b.targets) == 1:
-                    lp = lhs_parts(b.targets[0])
-                    rs = rhs_slice(b.value, e)
-                    if lp and rs:
-                        role = "lags" if lp[0] == "new_X" else ("targets" if lp[0] == "new_y" else None)
-                        if role:
-                            out[role] = Piece(b, lp[1], lp[2], rs[0], rs[1], rs[2], iv, llo, lhi, e)
-        elif isinstance(s, ast.If) and src_of(s.test) == "X is not None":
-            for b in s.body:
-                if isinstance(b, ast.Assign) and len(b.targets) == 1:
-                    lp = lhs_parts(b.targets[0])
-                    rs = rhs_slice(b.value, env)
-                    if lp and rs and lp[0] == "new_X":
-                        out["exog"] = Piece(b, lp[1], lp[2], rs[0], rs[1], rs[2], env=env)
-        elif isinstance(s, ast.Assign) and src_of(s.targets[0]) == "new_weights":
-            v = s.value
-            if isinstance(v, ast.IfExp):
-                v = v.orelse if src_of(v.test) == "weights is None" else v.body
-            rs = rhs_slice(v, env)
-            if rs:
-                out["weights"] = Piece(s, None, None, rs[0], rs[1], rs[2], env=env)
+def check_b(ck, repo, plainP):
+    fi = repo.func(UT, "build_ts_X_y")
+    try:
+        p, P, alloc, L, outs, prm = _frame(repo, fi, True, True)
+    except (AnalysisError, LinErr) as e:
+        ck.unknown("C20.b", fi, "same_rows framing", f"cannot follow the framing: {e}")
+        return
+    oX, oy, ow = outs
+    nrow = N - D2 - PAST + Lin(2)
+    first = N - nrow
+    for nm in (oX, oy):
+        rows, ctor, fill = _rows_of_alloc(alloc.get(nm), L)
+        ck.verdict(rows is not None and rows == N and ctor == "numpy.full" and fill == "numpy.nan", "C20.b", fi, p.origin.get(nm) or f"{nm} = numpy.full((n, ..), nan)", f"{nm} has n rows, NaN where no value is available", f"{nm} is not a NaN-filled array with n rows")
+    for role in ("lags", "targets", "exog"):
+        if role not in P or plainP is None or role not in plainP:
+            ck.unknown("C20.b", fi, role, f"store for '{role}' not found in both variants")
+            continue
+        a, b = P[role], plainP[role]
+        ck.verdict(a.rhs_base == b.rhs_base and a.lo == b.lo and a.hi == b.hi, "C20.b", fi, a.stmt if a.stmt is not None else role, f"{role}: same right-hand slice as the plain variant", f"{role}: same_rows reads {a.rhs_base}[{a.lo!r}:{a.hi!r}] but the plain variant reads {b.rhs_base}[{b.lo!r}:{b.hi!r}]: the padded table is not the plain table")
+        rows = a.lhs_rows
+        try:
+            okr = isinstance(rows, ast.Slice) and rows.upper is None and rows.lower is not None and L(rows.lower) == first
+        except LinErr:
+            okr = False
+        ck.verdict(okr, "C20.b", fi, f"{role}: rows {_t(rows) if rows is not None else None}", "written at rows [n - nrow:)", f"{role} are not written at rows [first:) with first = n - nrow")
+        try:
+            if isinstance(a.lhs_col, ast.Slice) or isinstance(b.lhs_col, ast.Slice):
+                okc = _t(a.lhs_col) == _t(b.lhs_col)
             else:
-                out["weights"] = Piece(s, None, None, src_of(v), None, None, env=env)
-    return out
+                okc = L(a.lhs_col) == L(b.lhs_col)
+            ck.verdict(okc, "C20.b", fi, f"{role}: column {_t(a.lhs_col)}", "same columns as the plain variant", f"{role} go to other columns than in the plain variant")
+        except LinErr:
+            pass
+    if "weights" in P and plainP is not None and "weights" in plainP:
+        a, b = P["weights"], plainP["weights"]
+        same_slice = a.lo is not None and a.rhs_base == b.rhs_base and a.lo == b.lo and a.hi == b.hi
+        shown = src_of(a.stmt.value) if isinstance(a.stmt, ast.Assign) else a.rhs_base
+        ck.verdict(same_slice, "C20.b", fi, a.stmt if a.stmt is not None else "weights", "weights: the plain variant's slice, left-padded", f"same_rows returns `{shown}` for the weights while the plain variant returns weights[{b.lo!r}:{b.hi!r}]: the weight of padded row first + r is not the weight aligned with its newest lag")
 
 
 def _sub(l: Lin, **kw) -> Lin:
     return l.subs({k: (v if isinstance(v, Lin) else Lin(v)) for k, v in kw.items()})
 
 
-def check_a(ck, repo):
-    fi = repo.func(UT, "build_ts_X_y")
-    plain, _ = _blocks(fi)
-    env = _env(plain)
-    nrow = env.get("nrow")
-    if nrow is None:
-        ck.unknown("C20.a", fi, "nrow = ...", "nrow not found in the plain block")
-        return None
-    ck.verdict(nrow == N - D2 - PAST + Lin(2), "C20.a", fi, f"nrow = {nrow!r}", "number of rows n - delay2 - past + 2", f"nrow is {nrow!r}, expected n - d2 - past + 2")
-    P = _pieces(plain, env)
-    for role in ("lags", "targets", "exog", "weights"):
-        if role not in P:
-            ck.unknown("C20.a", fi, role, f"statement for '{role}' not found in the plain block")
-            return None
-    I = Lin.sym("i")
-    one = {"d1": Lin(1)}
-    # lags
-    L = P["lags"]
-    ck.verdict(L.rhs_base == "y" and L.loop_lo == Lin(0) and L.loop_hi == PAST, "C20.a", fi, f"for {L.loopvar} in range({L.loop_lo!r}, {L.loop_hi!r})", "one lag column per i in range(past), read from the series itself", "lag columns are not built for i in range(past) from y")
-    ck.verdict(_sub(L.hi - L.lo - nrow, **one).is_zero(), "C20.a", fi, L.stmt, f"lag slice has nrow elements (length {_sub(L.hi - L.lo, **one)!r})", f"lag slice y[{L.lo!r}:{L.hi!r}] has length {_sub(L.hi - L.lo, **one)!r}, not nrow = {nrow!r}")
-    ck.verdict(L.lo == I, "C20.a", fi, f"lag column i starts at y[{L.lo!r}]", "row r, lag column i reads y[r + i]: `past` consecutive values, newest y[r + past - 1]", f"lag column i starts at {L.lo!r} instead of i: lags are not the `past` consecutive values ending at r + past - 1")
-    try:
-        col = lin(L.lhs_col, L.env)
-        ck.verdict(col == I + NCOL, "C20.a", fi, f"lag column index {col!r}", "lag i is stored in column ncol + i (after the exogenous columns)", f"lag i is stored in column {col!r}")
-    except LinErr:
-        ck.unknown("C20.a", fi, L.stmt, "cannot read the lag column index")
-    # targets
-    T = P["targets"]
-    ck.verdict(T.rhs_base == "y" and T.loop_lo == D1 and T.loop_hi == D2, "C20.a", fi, f"for {T.loopvar} in range({T.loop_lo!r}, {T.loop_hi!r})", "one target column per step in [delay1, delay2)", "target columns are not built for i in range(delay1, delay2) from y")
-    ck.verdict((T.hi - T.lo - nrow).is_zero(), "C20.a", fi, T.stmt, "target slice has nrow elements", f"target slice has length {(T.hi - T.lo)!r}, not nrow")
-    newest = PAST - Lin(1)
-    first_t = _sub(T.lo, i=D1)
-    ck.verdict(_sub(first_t - newest - D1, **one).is_zero() and (first_t - newest - D1).is_zero(), "C20.a", fi, f"first target offset {first_t!r}", "the first target lies exactly delay1 steps after the newest lag (r + past - 1 + delay1)", f"first target is y[r + {first_t!r}] while the newest lag is y[r + {newest!r}]: the gap is {(first_t - newest)!r}, not delay1 — targets overlap the lag features or skip a step")
-    ck.verdict((T.lo - I).t.get("i", 0) == 0 and T.lo.t.get("i", 0) == 1, "C20.a", fi, f"target offset {T.lo!r}", "consecutive targets (offset grows by one per column)", "targets are not consecutive values")
-    last = _sub(T.hi, i=D2 - Lin(1))
-    ck.verdict((last - N).is_zero(), "C20.a", fi, f"largest index read: {last!r} - 1", "the last target of the last row is y[n - 1] (no read past the series, none dropped)", f"the last target slice ends at {last!r}, not n")
-    try:
-        colt = lin(T.lhs_col, T.env)
-        ck.verdict(colt == I - D1, "C20.a", fi, f"target column index {colt!r}", "step i is stored in column i - delay1", f"target for step i is stored in column {colt!r}")
-    except LinErr:
-        ck.unknown("C20.a", fi, T.stmt, "cannot read the target column index")
-    # every lag index < every target index: min target - max lag = delay1 >= 1
-    gap = first_t - newest
-    init = repo.cls(BS, "BaseTimeSeries").methods["__init__"]
-    asserts = [src_of(a.test) for a in own_nodes(init.node) if isinstance(a, ast.Assert)]
-    ck.verdict(gap == D1 and "self.delay1 >= 1" in asserts and "self.delay2 > self.delay1" in asserts, "C20.a", fi, f"min target - max lag = {gap!r}; asserts {asserts[:2]}", "every lag is strictly older than every target (delay1 >= 1 is asserted by the constructor)", "lags are not provably older than targets (gap is not delay1, or delay1 >= 1 / delay2 > delay1 is no longer asserted)")
-    # exogenous rows and weights
-    E = P["exog"]
-    ck.verdict(E.rhs_base == "X" and E.lo == newest and (E.hi - E.lo - nrow).is_zero(), "C20.a", fi, E.stmt, "exogenous rows start at past - 1 (the newest lag) and there are nrow of them", f"exogenous rows are X[{E.lo!r}:{E.hi!r}]: not aligned with the newest lag (past - 1) or not nrow rows")
-    W = P["weights"]
-    ok = W.lo is not None and W.rhs_base == "weights" and W.lo == newest and (W.hi - W.lo - nrow).is_zero()
-    ck.verdict(ok, "C20.a", fi, W.stmt, "weights start at past - 1 (the newest lag), nrow of them", f"weights are {W.rhs_base}[{W.lo!r}:{W.hi!r}]: not aligned with the newest lag")
-    return P, env
-
-
-def check_b(ck, repo, plainP):
-    fi = repo.func(UT, "build_ts_X_y")
-    _, same = _blocks(fi)
-    env = _env(same)
-    nrow, first = env.get("nrow"), env.get("first")
-    if nrow is None or first is None:
-        ck.unknown("C20.b", fi, "nrow / first", "not found in the same_rows block")
-        return
-    ck.verdict(nrow == N - D2 - PAST + Lin(2) and first == N - nrow, "C20.b", fi, f"nrow = {nrow!r}; first = {first!r}", "same nrow; first = n - nrow rows of padding", "nrow/first differ from the plain variant's row count")
-    P = _pieces(same, env)
-    for role in ("lags", "targets", "exog"):
-        if role not in P or plainP is None or role not in plainP:
-            ck.unknown("C20.b", fi, role, f"statement for '{role}' not found in both variants")
-            continue
-        a, b = P[role], plainP[role]
-        ck.verdict(a.rhs_base == b.rhs_base and a.lo == b.lo and a.hi == b.hi, "C20.b", fi, a.stmt, f"{role}: same right-hand slice as the plain variant", f"{role}: same_rows reads {a.rhs_base}[{a.lo!r}:{a.hi!r}] but the plain variant reads {b.rhs_base}[{b.lo!r}:{b.hi!r}]: the padded table is not the plain table")
-        rows = a.lhs_rows
-        okr = isinstance(rows, ast.Slice) and rows.upper is None and rows.lower is not None and lin(rows.lower, a.env or env) == first
-        ck.verdict(okr, "C20.b", fi, f"{role}: rows {src_of(rows) if rows is not None else None}", "written at rows [n - nrow:)", f"{role} are not written at rows [first:) with first = n - nrow")
-        try:
-            ck.verdict(lin(a.lhs_col, a.env or env) == lin(b.lhs_col, b.env) if not isinstance(a.lhs_col, ast.Slice) else src_of(a.lhs_col) == src_of(b.lhs_col), "C20.b", fi, f"{role}: column {src_of(a.lhs_col)}", "same columns as the plain variant", f"{role} go to other columns than in the plain variant")
-        except LinErr:
-            pass
-    # weights
-    if "weights" in P and plainP is not None and "weights" in plainP:
-        a, b = P["weights"], plainP["weights"]
-        same_slice = a.lo is not None and a.rhs_base == b.rhs_base and a.lo == b.lo and a.hi == b.hi
-        ck.verdict(same_slice, "C20.b", fi, a.stmt, "weights: the plain variant's slice, left-padded", f"same_rows returns `{src_of(a.stmt.value)}` for the weights while the plain variant returns weights[{b.lo!r}:{b.hi!r}]: the weight of padded row first + r is not the weight aligned with its newest lag")
-    # allocation: numpy.full((y.shape[0], ...), numpy.nan)
-    for nm in ("new_X", "new_y"):
-        al = [s for s in same if isinstance(s, ast.Assign) and src_of(s.targets[0]) == nm]
-        ok = len(al) == 1 and isinstance(al[0].value, ast.Call) and src_of(al[0].value.func) == "numpy.full" and src_of(al[0].value.args[0]).startswith("(y.shape[0], ") and src_of(al[0].value.args[1]) == "numpy.nan"
-        ck.verdict(ok, "C20.b", fi, al[0] if al else f"{nm} = numpy.full((y.shape[0], ..), nan)", f"{nm} has n rows, NaN where no value is available", f"{nm} is not a NaN-filled array with n rows")
-
-
 def check_c(ck, repo):
     fi = repo.func(MT, "ts_mape")
-    asg = {}
-    for s in own_nodes(fi.node):
-        if isinstance(s, ast.Assign) and len(s.targets) == 1 and isinstance(s.targets[0], ast.Name):
-            asg.setdefault(s.targets[0].id, []).append(s)
-    def is_abs_sum(v):
-        if isinstance(v, ast.Call) and src_of(v.func) == "numpy.sum" and v.args:
-            a = v.args[0]
-            if isinstance(a, ast.BinOp) and isinstance(a.op, ast.Mult):
-                return is_abs(a.left) or is_abs(a.right)
-            return is_abs(a)
-        return False
-    def is_abs(a):
-        return isinstance(a, ast.Call) and src_of(a.func) == "numpy.abs"
-    for nm in ("dy1", "dy2"):
-        defs = [s for s in asg.get(nm, []) if isinstance(s.value, ast.Call) and src_of(s.value.func) == "numpy.sum"]
-        ck.verdict(len(defs) == 2 and all(is_abs_sum(s.value) for s in defs), "C20.c", fi, f"{nm} = numpy.sum(numpy.abs(..)[ * w])", f"{nm} is a sum of absolute values (non-negative for non-negative weights)", f"{nm} is not a sum of numpy.abs terms in both the weighted and unweighted branches")
-    rets = sorted(src_of(r.value) for r in own_nodes(fi.node) if isinstance(r, ast.Return))
-    ck.verdict(rets == sorted(["0 if dy2 == 0 else numpy.inf", "dy2 / dy1"]), "C20.c", fi, f"returns {rets}", "0, +inf, or the ratio of two non-negative sums", f"ts_mape returns {rets}")
-    g = [s for s in own_nodes(fi.node) if isinstance(s, ast.If) and src_of(s.test) == "dy1 == 0"]
-    ck.verdict(len(g) == 1, "C20.c", fi, "if dy1 == 0", "division guarded", "division by a zero denominator is not guarded")
-    # removed NumPy aliases (NumPy 2 is installed): numpy.infty etc.
+    from engine.patheval import PathEval
+
+    pe_, pp_, pw = fi.named_params[:3]
+    res = {}
+    for given in (False, True):
+        b = {pw: (ast.Name(id=f"{pw}__set", ctx=ast.Load()) if given else ast.Constant(None))}
+        pe = PathEval(fi.node, b, post=lambda x: complement_norm(inline_helpers(repo, fi, x)))
+        ps = [p for p in split_ifexp(pe.run()) if p.ret != RAISE and consistent(p.conds)]
+        res[given] = ps
+    E = f"numpy.ma.masked_array(numpy.squeeze({pe_}), mask=numpy.isnan(numpy.squeeze({pp_})))"
+    for given, ps in res.items():
+        cfg = f"[weights {'given' if given else 'None'}]"
+        if not ps:
+            ck.unknown("C20.c", fi, f"ts_mape {cfg}", "no path")
+            continue
+        rets = {}
+        num = den = None
+        for p in ps:
+            # the two sums, as they stand before the final .sum()
+            rt = p.ret
+            rets[p.ret_text()] = p
+        ratio = [p for t, p in rets.items() if isinstance(p.ret, ast.BinOp) and isinstance(p.ret.op, ast.Div)]
+        zero = [p for t, p in rets.items() if t == "0"]
+        inf = [p for t, p in rets.items() if t in ("numpy.inf", "float('inf')", "math.inf")]
+        ck.verdict(len(ratio) == 1 and len(zero) == 1 and len(inf) == 1 and len(rets) == 3, "C20.c", fi, f"{cfg} returns {sorted(t[:30] for t in rets)}", "0, +inf, or the ratio of two non-negative sums", f"{cfg} ts_mape returns {sorted(t[:60] for t in rets)}")
+        if len(ratio) != 1:
+            continue
+        r = ratio[0].ret
+        N_, D_ = _strip_sum(r.left), _strip_sum(r.right)
+        w = f" * {pw}__set[1:]" if given else ""
+        ok_abs = all(_is_abs_sum(x) for x in (N_, D_))
+        ck.verdict(ok_abs, "C20.c", fi, f"{cfg} numerator / denominator", "both are sums of absolute values (non-negative for non-negative weights)", f"{cfg} numerator or denominator is not a sum of numpy.abs terms: {_t(N_)[:80]} / {_t(D_)[:80]}")
+        # guards: 0 when both vanish, inf when only the denominator does
+        dz = ctext(f"{_t(r.right)} == 0")
+        nz = ctext(f"{_t(r.left)} == 0")
+        okg = truth_of(ratio[0].conds, dz) is False and zero and truth_of(zero[0].conds, dz) is True and truth_of(zero[0].conds, nz) is True and inf and truth_of(inf[0].conds, dz) is True and truth_of(inf[0].conds, nz) is False
+        ck.verdict(bool(okg), "C20.c", fi, f"{cfg} division guarded", "the ratio is only formed for a non-zero denominator; 0/0 -> 0, x/0 -> inf", f"{cfg} division by a zero denominator is not guarded (or the 0 / inf cases are exchanged)")
+        # masks: a term is dropped from both sums when the forecast or its predecessor is missing
+        PM = None
+        for n_ in ast.walk(N_):
+            if isinstance(n_, ast.Call) and _t(n_.func) == "numpy.ma.masked_array" and _t(n_.args[0]) == f"numpy.squeeze({pp_})":
+                PM = n_
+        okm = False
+        if PM is not None:
+            mk = next((k.value for k in PM.keywords if k.arg == "mask"), None)
+            # the mask variable is updated in place: its construction is read from the path's stores
+            okm = mk is not None and _t(mk) == f"numpy.isnan(numpy.squeeze({pp_})).copy()"
+            upd = [(k, v) for k, v in ratio[0].named_stores.items() if k.endswith("[1:]")]
+            okm = okm and len(upd) == 1 and isinstance(upd[0][1], ast.BinOp) and isinstance(upd[0][1].op, ast.BitOr) and _t(upd[0][1].right) == f"numpy.isnan(numpy.squeeze({pp_})[:-1])"
+            okm = okm and E in _t(N_) and E in _t(D_)
+        ck.verdict(okm, "C20.c", fi, f"{cfg} NaN masks (plain and shifted)", "a term is dropped from numerator and denominator alike when the forecast or its predecessor is missing", "the NaN masks of numerator and denominator no longer drop the same terms: the naive forecast scores != 1 when forecasts start with NaN padding")
+        # substitution: forecast = previous value turns the numerator into the denominator
+        if PM is not None:
+            pm_t = _t(PM)
+
+            class Sub(ast.NodeTransformer):
+                def visit_Subscript(s_, node):
+                    s_.generic_visit(node)
+                    if _t(node.value) == pm_t and _t(node.slice) == "1:":
+                        return ast.parse(f"({E})[:-1]", mode="eval").body
+                    return node
+
+            from engine import norm
+
+            na = Sub().visit(clone_ast(N_))
+            same = norm.dump(_abs_sym(na), rename=False) == norm.dump(_abs_sym(clone_ast(D_)), rename=False)
+            ck.verdict(same, "C20.c", fi, f"{cfg} naive forecast", "with the previous value as forecast the numerator is the denominator (score 1)", "replacing the forecast by the previous value does not turn the numerator into the denominator: the naive forecast does not score 1")
     bad = [n for n in own_nodes_incl_lambda(fi.node) if isinstance(n, ast.Attribute) and src_of(n) in REMOVED_NUMPY_ALIASES]
     ck.verdict(not bad, "C20.c", fi, bad[0] if bad else "no removed NumPy alias", "constants exist in NumPy 2", f"{src_of(bad[0]) if bad else ''} was removed in NumPy 2.0: this branch raises AttributeError instead of returning")
-    # substitution: predicted[1:] -> expected[:-1] makes numerator == denominator
-    class Sub(ast.NodeTransformer):
-        def visit_Subscript(self, node):
-            self.generic_visit(node)
-            if src_of(node) == "predicted_y[1:]":
-                return ast.parse("expected_y[:-1]", mode="eval").body
-            return node
-    import copy
-    from engine import norm
-    num = [s for s in asg.get("dy2", []) if isinstance(s.value, ast.Call) and src_of(s.value.func) == "numpy.sum"]
-    den = [s for s in asg.get("dy1", []) if isinstance(s.value, ast.Call) and src_of(s.value.func) == "numpy.sum"]
-    if len(num) == 2 and len(den) == 2:
-        for a, b in zip(sorted(num, key=lambda s: s.lineno), sorted(den, key=lambda s: s.lineno)):
-            na = Sub().visit(clone_ast(a.value))
-            same = norm.dump(_abs_sym(na), rename=False) == norm.dump(_abs_sym(b.value), rename=False)
-            ck.verdict(same, "C20.c", fi, a, "with the previous value as forecast the numerator is the denominator (score 1)", "replacing the forecast by the previous value does not turn the numerator into the denominator: the naive forecast does not score 1")
-    # masks: NaN forecasts masked in expected; forecast masked where it or its predecessor is NaN
-    st = [src_of(s) for s in sorted((x for x in own_nodes(fi.node) if isinstance(x, (ast.Assign, ast.AugAssign))), key=lambda x: x.lineno)]
-    want = ["mask = numpy.isnan(predicted_y)", "mask2 = mask.copy()", "mask2[1:] |= numpy.isnan(predicted_y[:-1])", "expected_y = numpy.ma.masked_array(expected_y, mask=mask)", "predicted_y = numpy.ma.masked_array(predicted_y, mask=mask2)"]
-    ck.verdict([s for s in st if s in want] == want, "C20.c", fi, "NaN masks (plain and shifted)", "a term is dropped from numerator and denominator alike when the forecast or its predecessor is missing", "the NaN masks of numerator and denominator no longer drop the same terms: the naive forecast scores != 1 when forecasts start with NaN padding")
+
+
+def _strip_sum(x: ast.AST) -> ast.AST:
+    """x.sum() of an already summed scalar is the scalar"""
+    while isinstance(x, ast.Call) and isinstance(x.func, ast.Attribute) and x.func.attr == "sum" and not x.args:
+        x = x.func.value
+    return x
+
+
+def _is_abs_sum(v: ast.AST) -> bool:
+    if isinstance(v, ast.Call) and _t(v.func) == "numpy.sum" and v.args:
+        a = v.args[0]
+        if isinstance(a, ast.BinOp) and isinstance(a.op, ast.Mult):
+            return _is_abs(a.left) or _is_abs(a.right)
+        return _is_abs(a)
+    return False
+
+
+def _is_abs(a: ast.AST) -> bool:
+    return isinstance(a, ast.Call) and _t(a.func) in ("numpy.abs", "numpy.absolute", "abs")
 
 
 def _abs_sym(e):
